@@ -21,7 +21,10 @@ EXTRA = {"c01-frag-result-last-datagram": ["C07"], "c08-r3-fragment-glue-le": ["
          "c16-r10-dt-sensors-extends-in-place": ["C14"], "c17-r9-udp-queued-inherits-socket": ["C10"],
          "c05-r11-udp-noka-close-via-public-close": ["C10"], "c11-r11-es-settings-outside-by-prefix": ["C12"],
          "c12-r11-battery-map-after-try": ["C14"], "c12-r11-map-response-try-hoisted": ["C15"],
-         "c20-r11-tx-wrap-modulus-off-by-one": ["C03"], "c11-r11-read-sensor-keyerror": ["C16"]}
+         "c20-r11-tx-wrap-modulus-off-by-one": ["C03"], "c11-r11-read-sensor-keyerror": ["C16"],
+         "c04-r12-cancelling-count-sticky": ["C05"], "c04-r12-retry-counter-on-command": ["C20"],
+         "c06-r12-icmp-keeps-socket-and-timer-not-cancelled": ["C05"], "c11-r12-lazy-days-months": ["C12"],
+         "c12-r12-map-after-try": ["C14"]}
 only = sys.argv[1:]
 for d in sorted(glob.glob(os.path.join(ROOT, "seeded", "[!_]*"))):
     name = os.path.basename(d)
